@@ -565,7 +565,14 @@ def run(ctx):
             scs += [dict(sc, id="%s-r%d" % (sc["id"], rep)) for sc in matrix(rng)]
         scs += [gen_scenario(rng, "g%d" % i) for i in range(40)]
     bo_cov, bo_viol = backoff_probe.run(ctx, ID)
-    lv_cov, lv_viol = round_probe.run(ctx, ID, {"leave"})
+    try:
+        lv_cov, lv_viol = round_probe.run(ctx, ID, {"leave"})
+    except BuildError as e:
+        # the leave probe lives in pkg/gossip: when it no longer compiles against the tree the tie is broken (reported below,
+        # unless a scenario on the real cluster finds a failing input)
+        lv_cov = {"harness": "gossip/leaveprobe", "build_failed": True}
+        lv_viol = [{"what": "harness-build: the leave-notification probe no longer compiles against the tree (an internal of pkg/gossip the model is tied to changed): " + str(e)[-400:],
+                    "found_input": False, "replay_obj": {"broken": "corr:C18:members:harness-build", "log": str(e)[-3000:]}}]
     bo_viol = bo_viol + lv_viol
     binary = build_harness(PKG, dirs=HDIRS)
     t0 = time.time()
@@ -667,6 +674,8 @@ def run(ctx):
            "crash_detection_ms": {"n": len(det), "min": min(det) if det else None, "max": max(det) if det else None},
            "reconnection_backoff": bo_cov, "leave_notification": lv_cov,
            "wall_harness_s": round(time.time() - t0, 1)}
+    if any(v.get("found_input") for v in violations):
+        violations = [v for v in violations if v.get("found_input")] + [v for v in violations if not v.get("found_input")]
     return {"coverage": cov, "violations": violations, "known": known}
 
 
